@@ -15,8 +15,9 @@ RULE = (
     "full product splitter {expanding, sliding, single} x window x step x fh (non-empty "
     "subsets of {1..3}) x n x strategy {refit, update} x scoring {default sMAPE, "
     "MAPE(symmetric=False), asymmetric make_forecasting_scorer} x forecaster {recording "
-    "last/mean, Naive last/mean/drift, PolynomialTrend} x (X, return_data) in {(None,False), "
-    "(1 col,True)} (thorough: crossed). Oracle: honest per-fold loop in the harness with fresh "
+    "last/mean, Naive last/mean/drift, PolynomialTrend} x (X, return_data, forecaster already "
+    "fitted on the whole series before the call) in {(None,F,F), (1 col,T,F), (None,F,T)} "
+    "(thorough: crossed). Oracle: honest per-fold loop in the harness with fresh "
     "clones + leak monitor on the recording forecaster's call log. non-trivial = >=2 folds."
 )
 ASSUMPTIONS = [
@@ -38,13 +39,16 @@ def gen_cases(tier, seed):
                         for strat in ("refit", "update"):
                             for sc in SCORINGS:
                                 for fc in FORECASTERS:
-                                    combos = ((False, False), (True, True)) if tier == "quick" \
-                                        else ((False, False), (True, True), (True, False),
-                                              (False, True))
-                                    for withX, rd in combos:
+                                    combos = ((False, False, False), (True, True, False),
+                                              (False, False, True)) if tier == "quick" \
+                                        else ((False, False, False), (True, True, False),
+                                              (True, False, True), (False, True, True),
+                                              (False, False, True), (True, True, True))
+                                    for withX, rd, prefit in combos:
                                         yield dict(n=n, splitter=sk, W=W, s=s, fh=fh,
                                                    strategy=strat, scoring=sc, forecaster=fc,
-                                                   X=withX, return_data=rd, fam=seed % 3)
+                                                   X=withX, return_data=rd, prefit=prefit,
+                                                   fam=seed % 3)
 
 
 def _series(n, fam):
@@ -136,6 +140,9 @@ def run_case(case):
     cv = _mk_cv(case)
     scoring_arg, metric = _mk_scoring(case["scoring"])
     f = _mk_forecaster(case["forecaster"])
+    if case.get("prefit"):
+        # a forecaster that has been used before (fitted on the whole series) is a valid argument
+        f.fit(y.copy(), None if X is None else X.copy(), fh=[1])
     folds = call(lambda: [(a.copy(), b.copy()) for a, b in cv.split(y)])
     if not folds.ok or not folds.value:
         res.outcome("splitter-rejects")
